@@ -97,9 +97,16 @@ impl Stats {
     }
 }
 
+pub const ALL_FAMILIES: [&str; 9] = ["core", "stop", "bp", "mw", "eff", "sub", "api", "build", "two"];
+
 pub fn family_of(p: &PropSpec, batch_seed: u64, i: u64) -> &'static str {
     let total: u32 = p.families.iter().map(|f| f.1).sum();
     let mut r = Rng::new(batch_seed ^ 0xFA417 ^ i.wrapping_mul(0x2545F4914F6CDD1D));
+    // every oracle runs on every run, so a share of each batch is spent in the families that were
+    // not written for this property: violations hiding in scenarios nobody thought relevant
+    if r.below(100) < 15 {
+        return ALL_FAMILIES[r.below(ALL_FAMILIES.len() as u64) as usize];
+    }
     let mut x = r.below(total as u64) as u32;
     for (f, w) in p.families {
         if x < *w {
